@@ -53,6 +53,10 @@ pub fn grid() -> Vec<f64> {
         0.5,
         f64::INFINITY,
         f64::NEG_INFINITY,
+        // neighbouring representable values away from a power of two: distinct values, however close, are distinct
+        0.3,
+        0.30000000000000004,
+        f64::from_bits(1.5f64.to_bits() + 1),
         f64::NAN,
         -f64::NAN,
         f64::from_bits(0x7ff0_0000_0000_0001), // signalling NaN
@@ -378,6 +382,17 @@ pub fn run_all(ctx: &mut Ctx, replay: Option<&Path>) {
         }),
     );
     let n = ctx.tier.pick(120_000, 600_000);
+    let near = |a: Fb, k: i8| -> Fb {
+        let mut v = a.f();
+        if v.is_finite() {
+            for _ in 0..k.unsigned_abs() {
+                v = if k > 0 { crate::props::c10::next_up(v) } else { crate::props::c10::next_down(v) };
+            }
+        }
+        Fb::of(v)
+    };
+    // a value and two values 0-3 representable steps away from it (equality must agree with the order however close)
+    ctx.random(&s, (fb_strategy(), -3i8..4, -3i8..4, (-1e3f64..1e3).prop_map(Fb::of)).prop_map(move |(a, k1, k2, k)| SingleCase { a, b: near(a, k1), c: near(a, k2), k }), n / 4);
     ctx.random(&s, (fb_strategy(), fb_strategy(), fb_strategy(), prop_oneof![proptest::sample::select(vec![0.0, -0.0, 1.0, -1.0, 2.0, 0.5, 1e300, -1e300, 1e-300, f64::MAX]).prop_map(Fb::of), (-1e3f64..1e3).prop_map(Fb::of)]).prop_map(|(a, b, c, k)| SingleCase { a, b, c, k }), n);
     // multi: all pairs of vectors up to length 2 (3 thorough) over the 7-value grid (+ NaN, -inf for construction), third vector cycling
     let maxlen = ctx.tier.pick(2, 3);
